@@ -3,6 +3,7 @@ CONSTANTS ControlsExisting = TRUE
   OpenReturns = TRUE
   OwnsOnlyCreated = TRUE
   OpenKeepsLimits = TRUE
+  MovesWholeProcess = TRUE
 SPECIFICATION TSpec
 INVARIANTS OneOwner
 CONSTRAINT Mark
